@@ -21,12 +21,13 @@ pub struct Recorder {
     pub next_val: u32,
     /// id tokens that were skipped by state injection (no real id exists for them)
     pub phantom: u32,
+    pub broken: bool,
 }
 
 impl Recorder {
     pub fn new(path: &str, seed: u64) -> Self {
         let f = std::fs::File::create(path).expect("cannot create trace file");
-        Recorder { sim: Sim::new(), out: std::io::BufWriter::new(f), pending: format!("{}.pending", path), events: 0, rng: StdRng::seed_from_u64(seed), next_val: 1, phantom: 0 }
+        Recorder { sim: Sim::new(), out: std::io::BufWriter::new(f), pending: format!("{}.pending", path), events: 0, rng: StdRng::seed_from_u64(seed), next_val: 1, phantom: 0, broken: false }
     }
 
     fn isrem_sample(&mut self) -> Vec<[u32; 2]> {
@@ -35,7 +36,7 @@ impl Recorder {
         for i in 0..n.min(4) {
             idx.push(i);
         }
-        for i in n.saturating_sub(6)..n {
+        for i in n.saturating_sub(48)..n {
             idx.push(i);
         }
         for _ in 0..8 {
@@ -83,7 +84,29 @@ impl Recorder {
         self.emit(json!({"op": "reset", "a": cap, "cap": cap_now}));
     }
 
+    /// The public accessors themselves panicked while the state was read back (possible only on
+    /// a corrupted arena): logged as a `broken` event, which the trace specification rejects.
+    fn guarded<F: FnOnce(&mut Self)>(&mut self, f: F) -> bool {
+        let r = std::panic::catch_unwind(std::panic::AssertUnwindSafe(|| f(self)));
+        if let Err(p) = r {
+            let msg = if let Some(s) = p.downcast_ref::<&str>() { s.to_string() } else if let Some(s) = p.downcast_ref::<String>() { s.clone() } else { "?".into() };
+            self.emit(json!({"op": "broken", "a": 0, "msg": msg}));
+            self.broken = true;
+            return false;
+        }
+        true
+    }
+
     pub fn call(&mut self, c: &Call) -> Done {
+        if self.broken {
+            return Done { class: "Ok".into(), new: 0, reissued_tok: 0, panic_msg: String::new() };
+        }
+        let mut done: Option<Done> = None;
+        self.guarded(|me| done = Some(me.call_inner(c)));
+        done.unwrap_or(Done { class: "Ok".into(), new: 0, reissued_tok: 0, panic_msg: String::new() })
+    }
+
+    fn call_inner(&mut self, c: &Call) -> Done {
         // a call that never returns is found by the driver through this file
         std::fs::write(&self.pending, json!({"event": self.events + 1, "call": c}).to_string()).ok();
         let prevcap = self.sim.arena.capacity();
@@ -100,6 +123,13 @@ impl Recorder {
     }
 
     pub fn identity(&mut self, op: &str) {
+        if self.broken {
+            return;
+        }
+        self.guarded(|me| me.identity_inner(op));
+    }
+
+    fn identity_inner(&mut self, op: &str) {
         match op {
             "clone_swap" => {
                 let c = self.sim.arena.clone();
@@ -118,6 +148,13 @@ impl Recorder {
     }
 
     pub fn observe(&mut self, slot: usize) {
+        if self.broken {
+            return;
+        }
+        self.guarded(|me| me.observe_inner(slot));
+    }
+
+    fn observe_inner(&mut self, slot: usize) {
         let n = self.sim.arena.count();
         let o = self.sim.observe(slot, n + 1);
         let mut ev = json!({"op": "observe", "a": slot, "obs": o});
@@ -137,14 +174,24 @@ impl Recorder {
     pub fn drive(&mut self, mix: &str, events: u64, max_slots: usize) {
         let w = weights(mix);
         let total: u32 = w.iter().map(|x| x.1).sum();
-        let ins = ["append", "prepend", "insert_after", "insert_before"];
         let start = self.events;
-        while self.events - start < events {
+        while self.events - start < events && !self.broken {
+            let mut go = true;
+            self.guarded(|me| me.drive_one(&w, total, max_slots, &mut go));
+            if !go {
+                break;
+            }
+        }
+    }
+
+    fn drive_one(&mut self, w: &[(&'static str, u32)], total: u32, max_slots: usize, _go: &mut bool) {
+        let ins = ["append", "prepend", "insert_after", "insert_before"];
+        {
             let n = self.sim.arena.count();
             let live = self.live_slots();
             let mut r = self.rng.gen_range(0..total);
             let mut kind = "";
-            for (k, wt) in &w {
+            for (k, wt) in w {
                 if r < *wt {
                     kind = k;
                     break;
@@ -153,7 +200,7 @@ impl Recorder {
             }
             let can_alloc = n < max_slots || !self.sim.drain().is_empty();
             match kind {
-                "new" | "append_value" if !can_alloc => continue,
+                "new" | "append_value" if !can_alloc => return,
                 "new" => {
                     let v = self.next_val;
                     self.next_val += 1;
@@ -161,7 +208,7 @@ impl Recorder {
                 }
                 "append_value" => {
                     if n == 0 {
-                        continue;
+                        return;
                     }
                     // mostly live parents, sometimes a removed one (must panic, C12)
                     let a = if !live.is_empty() && self.rng.gen_range(0..10) < 9 { self.pick(&live) } else { self.rng.gen_range(1..=n) };
@@ -171,13 +218,13 @@ impl Recorder {
                 }
                 "move" | "fail" => {
                     if n == 0 {
-                        continue;
+                        return;
                     }
                     let op = ins[self.rng.gen_range(0..4)];
                     let (a, b);
                     if kind == "move" {
                         if live.len() < 2 {
-                            continue;
+                            return;
                         }
                         a = self.pick(&live);
                         b = self.pick(&live);
@@ -211,7 +258,7 @@ impl Recorder {
                     // build / edit top-level sibling chains
                     let roots: Vec<usize> = live.iter().copied().filter(|s| self.sim.arena[self.sim.id(*s)].parent().is_none()).collect();
                     if roots.is_empty() || live.len() < 2 {
-                        continue;
+                        return;
                     }
                     let a = self.pick(&roots);
                     let b = self.pick(&live);
@@ -220,7 +267,7 @@ impl Recorder {
                 }
                 "detach" | "remove" | "remove_subtree" | "set" => {
                     if live.is_empty() {
-                        continue;
+                        return;
                     }
                     let a = self.pick(&live);
                     let v = if kind == "set" {
@@ -246,7 +293,7 @@ impl Recorder {
                 }
                 "observe" => {
                     if live.is_empty() {
-                        continue;
+                        return;
                     }
                     let a = self.pick(&live);
                     self.observe(a);
@@ -321,29 +368,38 @@ impl Recorder {
 
     /// remove + new_node cycles of one slot, optionally with another slot free at the same time
     pub fn churn(&mut self, slot: usize, cycles: u32, other_free_every: u32) {
-        // a second node that is freed just before `slot` in some cycles, so that the free list is
-        // not empty when `slot` is freed (and comes back first, the list being FIFO or not)
+        // Liveness here is decided by the CALL HISTORY (an id returned by new_node and not yet passed to
+        // remove is live for its owner), not by what the arena reports.
+        // `extra`: a second node that is freed just before `slot` in some cycles, so that the free list
+        // is not empty when `slot` is freed.
+        let mut mine = true;
         let mut extra: usize = 0;
+        let mut extra_mine = false;
         for i in 0..cycles {
-            if !self.live_slots().contains(&slot) {
+            if !mine || self.broken {
                 break;
             }
             let with_other = other_free_every > 0 && i % other_free_every == 0;
             if with_other {
-                if extra == 0 || !self.live_slots().contains(&extra) {
+                if !extra_mine {
                     let v = self.next_val;
                     self.next_val += 1;
                     let d = self.call(&Call { op: "new".into(), a: 0, b: 0, v, checked: false, r: vec![] });
-                    extra = d.new;
+                    if d.class == "Ok" && d.new != 0 && d.new != slot {
+                        extra = d.new;
+                        extra_mine = true;
+                    }
                 }
-                if extra != 0 && extra != slot {
+                if extra_mine {
                     self.call(&Call { op: "remove".into(), a: extra, b: 0, v: 0, checked: false, r: vec![] });
+                    extra_mine = false;
                 }
             }
             self.call(&Call { op: "remove".into(), a: slot, b: 0, v: 0, checked: false, r: vec![] });
+            mine = false;
             // allocate until nothing is reusable any more (at most the two slots just freed)
             for _ in 0..2 {
-                if self.sim.drain().is_empty() {
+                if self.broken || self.sim.drain().is_empty() {
                     break;
                 }
                 let v = self.next_val;
@@ -351,6 +407,11 @@ impl Recorder {
                 let d = self.call(&Call { op: "new".into(), a: 0, b: 0, v, checked: false, r: vec![] });
                 if d.class != "Ok" {
                     break;
+                }
+                if d.new == slot {
+                    mine = true;
+                } else if d.new == extra {
+                    extra_mine = true;
                 }
             }
         }
@@ -394,7 +455,7 @@ pub fn run(args: &[String]) -> i32 {
                 #[cfg(feature = "it_deser")]
                 {
                     let verify = get("--verify-injection", "0") == "1";
-                    if let Err(e) = r.inject_generation(slot, 32740 + (seed % 11) as u32, verify) {
+                    if let Err(e) = r.inject_generation(slot, 32750 + (seed % 11) as u32, verify) {
                         eprintln!("harness: state injection failed: {}", e);
                         return 2;
                     }
